@@ -129,7 +129,10 @@ def make_eval(exe):
                 else:
                     bad = c11.judge(r, ("rc1",), tinfo)
                     if bad is None and r.out and not ref.startswith(r.out):
-                        bad = "exit 1 and the bytes written are not a prefix of the sequential decoding"
+                        # bytes of a block whose CRC turns out wrong may already be written (see C09)
+                        _, lenient = bzk.inspect(data, lenient_crc=True)
+                        if not lenient.startswith(r.out):
+                            bad = "exit 1 and the bytes written are not a prefix of the sequential decoding"
                 nontriv = bool(labels & UNCONFIRMED)
                 lab = sorted(labels) + ["ref:" + verdict, "plant:%s" % KINDS[case["kind"]][0], "workers=%d" % case["n"],
                                         "sched=" + s[0], "enc=" + case["enc"]]
